@@ -105,55 +105,72 @@ Definition eri_prim (L Lc : nat) (A B C D : F * F * F) (alpha beta gamma delta :
 
 Definition coord3 (s : shell F) : F * F * F := (s_x s, s_y s, s_z s).
 
+(* weights of one shell: (radial norm of primitive k, coefficient row k) *)
+Definition wts (s : shell F) : list (F * list F) :=
+  map (fun ec : F * list F => (norm_rad K (s_l s) (fst ec), snd ec)) (combine (s_exps s) (s_coeffs s)).
+Definition wcoef (m : nat) (w : F * list F) : F := fst w * nth m (snd w) 0.
+
+(* sum over the primitives of one shell: Sigma_k  f(x_k) * N_k d_{k m} *)
+Definition csum {A : Type} (ws : list (F * list F)) (m : nat) (xs : list A) (f : A -> F) : F :=
+  fsum (map (fun wx : (F * list F) * A => f (snd wx) * wcoef m (fst wx)) (combine ws xs)).
+
+Definition ecube := list (list (list (@cube F))).        (* E[cx][cy][cz] : cube over a *)
+Definition eget (e : ecube) (cx cy cz ax ay az : nat) : F :=
+  cget K (nth cz (nth cy (nth cx e []) []) []) ax ay az.
+
+(* contraction (:528-547): prims[ka][kb][kc][kd] *)
+Definition eri_contract (w1 w2 w3 w4 : list (F * list F)) (prims : list (list (list (list ecube))))
+           (m1 m2 m3 m4 : nat) (cx cy cz ax ay az : nat) : F :=
+  csum w1 m1 prims (fun p1 =>
+    csum w2 m2 p1 (fun p2 =>
+      csum w3 m3 p2 (fun p3 =>
+        csum w4 m4 p3 (fun e => fapx K (eget e cx cy cz ax ay az))))).
+
+(* one channel (m1 m2 m3 m4): [i3][i4][bx][by][bz] cube over a *)
+Definition eri_channel (La Lc lb ld : nat) (abx aby abz cdx cdy cdz : F) (comps3 comps4 : list comp)
+           (getc : nat -> nat -> nat -> nat -> nat -> nat -> F) : list (list (list (list (list cube)))) :=
+  (* for each a-triple: cube over c, then horizontal recursion c -> d *)
+  let Y := mk (S La) (fun ax => mk (S La) (fun ay => mk (S La) (fun az =>
+    let cubec : cube := mk (S Lc) (fun cx => mk (S Lc) (fun cy => mk (S Lc) (fun cz =>
+                          getc cx cy cz ax ay az))) in
+    hrr K Lc ld cdx cdy cdz cubec))) in      (* [ax][ay][az][dx][dy][dz] cube over c *)
+  (* for each (cc, cd): cube over a, then horizontal recursion a -> b *)
+  map (fun c3 : comp => map (fun c4 : comp =>
+    let cx := fst (fst c3) in let cy := snd (fst c3) in let cz := snd c3 in
+    let dx := fst (fst c4) in let dy := snd (fst c4) in let dz := snd c4 in
+    let cubea : cube := mk (S La) (fun ax => mk (S La) (fun ay => mk (S La) (fun az =>
+      cget K (nth dz (nth dy (nth dx (nth az (nth ay (nth ax Y []) []) []) []) []) []) cx cy cz))) in
+    hrr K La lb abx aby abz cubea) comps4) comps3.
+
 (* ElectronRepulsionIntegral.construct_array_contraction(s1, s2, s3, s4):
    (ab|cd) with a = s1, b = s2 (electron 1), c = s3, d = s4; result [M1][L1][M2][L2][M3][L3][M4][L4] *)
-Definition eri_block (s1 s2 s3 s4 : shell F) :=
+Definition eri_block (s1 s2 s3 s4 : shell F) : list (list (list (list (list (list (list (list F))))))) :=
   let la := s_l s1 in let lb := s_l s2 in let lc := s_l s3 in let ld := s_l s4 in
   let L := (la + lb + lc + ld)%nat in let Lc := (lc + ld)%nat in let La := (la + lb)%nat in
-  (* primitives [ka][kb][kc][kd] -> E[c..][a..] *)
-  let prims := map (fun alpha => map (fun beta => map (fun gamma => map (fun delta =>
+  let prims : list (list (list (list ecube))) :=
+    map (fun alpha => map (fun beta => map (fun gamma => map (fun delta =>
       eri_prim L Lc (coord3 s1) (coord3 s2) (coord3 s3) (coord3 s4) alpha beta gamma delta)
       (s_exps s4)) (s_exps s3)) (s_exps s2)) (s_exps s1) in
-  let wts (s : shell F) := map (fun '(e, crow) => (norm_rad K (s_l s) e, crow)) (combine (s_exps s) (s_coeffs s)) in
   let w1 := wts s1 in let w2 := wts s2 in let w3 := wts s3 in let w4 := wts s4 in
   let abx := s_x s1 - s_x s2 in let aby := s_y s1 - s_y s2 in let abz := s_z s1 - s_z s2 in
   let cdx := s_x s3 - s_x s4 in let cdy := s_y s3 - s_y s4 in let cdz := s_z s3 - s_z s4 in
   let comps1 := comps_of s1 in let comps2 := comps_of s2 in
   let comps3 := comps_of s3 in let comps4 := comps_of s4 in
-  let channel (m1 m2 m3 m4 : nat) :=
-    (* contracted E[cx][cy][cz][ax][ay][az], a <= La *)
-    let getc (cx cy cz ax ay az : nat) : F :=
-      fsum (map (fun '((n1, r1), p1) =>
-        fsum (map (fun '((n2, r2), p2) =>
-          fsum (map (fun '((n3, r3), p3) =>
-            fsum (map (fun '((n4, r4), e) =>
-              fapx K (cget K (nth cz (nth cy (nth cx e []) []) []) ax ay az)
-              * (n1 * nth m1 r1 0) * (n3 * nth m3 r3 0) * (n2 * nth m2 r2 0) * (n4 * nth m4 r4 0))
-              (combine w4 p3))) (combine w3 p2))) (combine w2 p1))) (combine w1 prims)) in
-    (* for each a-triple: cube over c, then horizontal recursion c -> d *)
-    let Y := mk (S La) (fun ax => mk (S La) (fun ay => mk (S La) (fun az =>
-      let cubec : cube := mk (S Lc) (fun cx => mk (S Lc) (fun cy => mk (S Lc) (fun cz =>
-                            getc cx cy cz ax ay az))) in
-      hrr K Lc ld cdx cdy cdz cubec))) in      (* [ax][ay][az][dx][dy][dz] cube over c *)
-    (* for each (cc, cd): cube over a, then horizontal recursion a -> b *)
-    map (fun c3 => map (fun c4 =>
-      let '(cx, cy, cz) := c3 in let '(dx, dy, dz) := c4 in
-      let cubea : cube := mk (S La) (fun ax => mk (S La) (fun ay => mk (S La) (fun az =>
-        cget K (nth dz (nth dy (nth dx (nth az (nth ay (nth ax Y []) []) []) []) []) []) cx cy cz))) in
-      hrr K La lb abx aby abz cubea) comps4) comps3 in   (* [c3][c4][bx][by][bz] cube over a *)
   let chans := mk (nseg s1) (fun m1 => mk (nseg s2) (fun m2 => mk (nseg s3) (fun m3 =>
-                 mk (nseg s4) (fun m4 => channel m1 m2 m3 m4)))) in
+                 mk (nseg s4) (fun m4 =>
+                   eri_channel La Lc lb ld abx aby abz cdx cdy cdz comps3 comps4
+                     (eri_contract w1 w2 w3 w4 prims m1 m2 m3 m4))))) in
   let f1 := map (inv_sqrt_df K) comps1 in let f2 := map (inv_sqrt_df K) comps2 in
   let f3 := map (inv_sqrt_df K) comps3 in let f4 := map (inv_sqrt_df K) comps4 in
-  mk (nseg s1) (fun m1 => map (fun '(c1, g1) =>
-    mk (nseg s2) (fun m2 => map (fun '(c2, g2) =>
+  mk (nseg s1) (fun m1 => mk (length comps1) (fun i1 =>
+    mk (nseg s2) (fun m2 => mk (length comps2) (fun i2 =>
       mk (nseg s3) (fun m3 => mk (length comps3) (fun i3 =>
         mk (nseg s4) (fun m4 => mk (length comps4) (fun i4 =>
-          let '(ax, ay, az) := c1 in let '(bx, by_, bz) := c2 in
+          let c1 := nth i1 comps1 (0, 0, 0)%nat in let c2 := nth i2 comps2 (0, 0, 0)%nat in
           let ch := nth m4 (nth m3 (nth m2 (nth m1 chans []) []) []) [] in
           let h := nth i4 (nth i3 ch []) [] in
-          cget K (nth bz (nth by_ (nth bx h []) []) []) ax ay az
-          * g1 * g2 * nth i3 f3 0 * nth i4 f4 0)))))
-      (combine comps2 f2))) (combine comps1 f1)).
+          cget K (nth (snd c2) (nth (snd (fst c2)) (nth (fst (fst c2)) h []) []) [])
+                 (fst (fst c1)) (snd (fst c1)) (snd c1)
+          * nth i1 f1 0 * nth i2 f2 0 * nth i3 f3 0 * nth i4 f4 0)))))))).
 
 End TwoElec.
